@@ -42,8 +42,9 @@ def _worker(args):
         path_obs = lea_rules.path_rules(fx, I, R, mode_name, ckpt, outs)
     obs = list(I.obs.values()) + list(path_obs.values())
     wss = lea_rules.ws_summary(I, mode_name, len(below), outs) if err is None else None
+    frs = lea_rules.frame_summary(I, mode_name, outs) if err is None else None
     return {
-        "ws": wss,
+        "ws": wss, "frames": frs,
         "mode": mode_name, "ckpt": ckpt, "paths": len(outs), "wall": round(time.time() - t0, 2), "error": err,
         "unanalysed": I.unanalysed, "stats": I.stats, "obs": obs,
         "counts": {r: {m: sorted(v) for m, v in ms.items()} for r, ms in R.counts.items()},
@@ -139,12 +140,16 @@ def compute(fact_path, jobs=None):
     for o in ws_obs:
         o["modes"] = []
         merged[(o["rule"], o["key"])] = o
+    fr_obs, nfr = lea_rules.frame_balance_obs([r["frames"] for r in results if r.get("frames")])
+    for o in fr_obs:
+        merged[(o["rule"], o["key"])] = o
+    counts.setdefault("R-FRAME-BALANCE", {})["keyword_paths"] = set(range(nfr))
     counts.setdefault("R-WS-ORDER", {})["push_runs"] = set(range(nruns))
     counts["R-WS-ORDER"]["blind_modes"] = {r["ws"]["mode"] for r in results if r.get("ws") and r["ws"]["blind"]}
     return {
         "version": ENGINE_VERSION,
         "wall": round(time.time() - t0, 2),
-        "modes": [{k: v for k, v in r.items() if k not in ("obs", "counts", "ws")} for r in results],
+        "modes": [{k: v for k, v in r.items() if k not in ("obs", "counts", "ws", "frames")} for r in results],
         "ws_summaries": [{k: v for k, v in r["ws"].items() if k != "runs"} for r in results if r.get("ws")],
         "obs": sorted(merged.values(), key=lambda o: (o["rule"], o["key"])),
         "counts": {r: {m: len(v) for m, v in ms.items()} for r, ms in counts.items()},
